@@ -8,13 +8,19 @@ level `cfg` — the window a fresh `Server`/`Client` connection carries for `Con
   case     : `lvl=cfg role=server|client cfg=<int> seqs=...`
   observed : as above
 level `rx`  — the post-handshake receive paths of a real connection pair:
-  case     : `lvl=rx path=readfrom|read suite=gcm|cbc role=server|client cfg=<int> sent=<k> [repoch=<n>] script=<item>,...`
+  case     : `lvl=rx path=readfrom|read|mix suite=gcm|cbc role=server|client cfg=<int> sent=<k> [repoch=<n>]
+              [skip=<j>.<n>,...] [plen=<L>] script=<item>,...`
              items (see harness/cmd/c16/rx.go): `g<i>` record i as sent, `q` the close_notify record,
              `f<i>` `c<i>` bit flips, `s<i>.<n>` / `e<i>.<n>` / `v<i>` rewritten sequence number /
              epoch / version, `t<i>` truncated, `o<i>` oversize length, `z` short junk,
-             `a<i>` record i from another address
-  observed : `init=<epoch>:<right>:<bitmap>:<size> hdrs=1.1-<k+1> steps=<out>:<epoch>:<right>:<bitmap>|... inerr=none|eof|fatal`
-             out = `d<i>` | `T` | `EOF` | `ERR`
+             `a<i>` record i from another address; a delivery is followed by one call of the path's
+             API with a large buffer unless it is written `+<item>` or the path is `mix`;
+             `R<n>` / `F<n>` = a call of Read / ReadFrom with an n-byte buffer.
+             `skip`: the sender moved its sequence number to n before record j; `plen`: payload i
+             has L + i%7 bytes.
+  observed : `init=<epoch>:<right>:<bitmap>:<size> hdrs=1.<a>-<b>,... steps=<out>:<epoch>:<right>:<bitmap>:<pending>|... inerr=none|eof|fatal`
+             one step per call; out = `d<i>` (all of payload i) | `x<hex>` (other bytes) | `T` | `EOF` | `ERR`,
+             bytes and an error together as `<bytes>!T|EOF|ERR`
   Here the assumption "only what the peer protected authenticates" is used to *predict*: the
   oracle gives every modified record the verdict `auth = false`; the real `decrypt` is what
   is observed.
@@ -25,6 +31,7 @@ The model's prediction uses the regenerated facts; the spec verdict uses only
 import Gotlcp.Oracle.Common
 import Gotlcp.Model.Replay
 import Gotlcp.Model.DtlcpRx
+import Gotlcp.Model.DtlcpRxMix
 import Gotlcp.Spec.ReplaySpec
 import Gotlcp.Generated.Facts
 
@@ -87,12 +94,58 @@ def splitDot (s : String) : String × Option Nat :=
   | [a, b] => (a, b.toNat?)
   | _ => (s, none)
 
-/-- script item ↦ (what the receive path sees, what the peer did) -/
-def parseItem (k : Nat) (it : String) : Option (DtlcpRx.Dgram × ReplaySpec.RxItem) :=
-  let forgedRec (e s : Nat) : DtlcpRx.Dgram := .record { epoch := e, seq := s, auth := false, kind := .appData, payload := 0 }
-  if it == "z" then some (.short, .forged)
-  else if it == "q" then
-    some (.record { epoch := 1, seq := k + 1, auth := true, kind := .closeNotify, payload := k + 1 }, .close (k + 1))
+/-- `skip=<j>.<n>,...` -/
+def parseSkips (s : String) : Option (List (Nat × Nat)) :=
+  if s == "-" then some [] else
+  (s.splitOn ",").mapM fun part =>
+    match splitDot part with
+    | (a, some n) => a.toNat?.map fun j => (j, n)
+    | _ => none
+
+/-- the sequence number record `i` carries: `i`, or `n + (i - j)` for the last skip point `j ≤ i` -/
+def seqOf (skips : List (Nat × Nat)) (i : Nat) : Nat :=
+  let best := skips.foldl (fun (acc : Nat × Nat) (jn : Nat × Nat) => if jn.1 ≤ i && jn.1 ≥ acc.1 then jn else acc) (1, 1)
+  best.2 + (i - best.1)
+
+/-- the bytes of payload `i` for base length `L` (as harness/cmd/c16/rx.go `payloadOf`) -/
+def payloadBytes (L i : Nat) : List Nat :=
+  (List.range (L + i % 7)).map fun j =>
+    if j == 0 then i % 256 else 201 + (i * 7 + j * 13) % 55
+
+def hexBytes (bs : List Nat) : String :=
+  String.ofList (bs.flatMap fun b => [Hex.digit (b / 16), Hex.digit (b % 16)])
+
+def hexVal (c : Char) : Option Nat :=
+  if '0' ≤ c && c ≤ '9' then some (c.toNat - '0'.toNat)
+  else if 'a' ≤ c && c ≤ 'f' then some (c.toNat - 'a'.toNat + 10) else none
+
+def parseHexBytes : List Char → Option (List Nat)
+  | [] => some []
+  | a :: b :: rest => do
+    let x ← hexVal a
+    let y ← hexVal b
+    let r ← parseHexBytes rest
+    pure ((x * 16 + y) :: r)
+  | _ => none
+
+/-- runs of consecutive sequence numbers of records `1 … k+1`, as the driver prints them -/
+def hdrRuns (skips : List (Nat × Nat)) (k : Nat) : String :=
+  let seqs := (List.range (k + 1)).map fun i => seqOf skips (i + 1)
+  let runs : List (Nat × Nat) := seqs.foldl (fun acc s =>
+    match acc with
+    | (a, b) :: rest => if s == b + 1 then (a, s) :: rest else (s, s) :: (a, b) :: rest
+    | [] => [(s, s)]) []
+  ",".intercalate (runs.reverse.map fun (a, b) => s!"1.{a}-{b}")
+
+/-- what a script item puts into the socket: (as the receive path sees it, as the peer / network did it) -/
+def parseItem (skips : List (Nat × Nat)) (L k : Nat) (it : String) : Option (DtlcpRx.MD × ReplaySpec.RxItem) :=
+  let forgedRec (i e s : Nat) : DtlcpRx.MD :=
+    { d := .record { epoch := e, seq := s, auth := false, kind := .appData, payload := 0 }, alertHdr := i == k + 1 }
+  let closeRec : DtlcpRx.MD × ReplaySpec.RxItem :=
+    ({ d := .record { epoch := 1, seq := seqOf skips (k + 1), auth := true, kind := .closeNotify, payload := k + 1 }, alertHdr := true },
+     .close (seqOf skips (k + 1)))
+  if it == "z" then some ({ d := .short, alertHdr := false }, .forged)
+  else if it == "q" then some closeRec
   else
     match it.toList with
     | [] => none
@@ -102,82 +155,147 @@ def parseItem (k : Nat) (it : String) : Option (DtlcpRx.Dgram × ReplaySpec.RxIt
       | none => none
       | some i =>
         if i < 1 || i > k + 1 then none else
-        if c == 'g' then
-          if i == k + 1 then some (.record { epoch := 1, seq := i, auth := true, kind := .closeNotify, payload := i }, .close i)
-          else some (.record { epoch := 1, seq := i, auth := true, kind := .appData, payload := i }, .genuine i)
-        else if c == 'f' || c == 'c' then some (forgedRec 1 i, .forged)
-        else if c == 's' then arg.map fun n => (forgedRec 1 n, .forged)
-        else if c == 'e' then arg.map fun n => (forgedRec n i, .forged)
-        else if c == 'v' then some (.badVersion, .forged)
-        else if c == 't' then some (.truncated, .forged)
-        else if c == 'o' then some (.oversize, .forged)
-        else if c == 'a' then some (.otherAddr, .forged)
+        let other (d : DtlcpRx.Dgram) : DtlcpRx.MD × ReplaySpec.RxItem := ({ d := d, alertHdr := i == k + 1 }, .forged)
+        -- rewriting a header field to the value it has leaves the record as the peer sent it
+        let asSent := c == 'g' || (c == 's' && arg == some (seqOf skips i)) || (c == 'e' && arg == some 1)
+        if asSent then
+          if i == k + 1 then some closeRec
+          else some ({ d := .record { epoch := 1, seq := seqOf skips i, auth := true, kind := .appData, payload := i }, alertHdr := false },
+                     .genuine (seqOf skips i) (payloadBytes L i))
+        else if c == 'f' || c == 'c' then some (forgedRec i 1 (seqOf skips i), .forged)
+        else if c == 's' then arg.map fun n => (forgedRec i 1 n, .forged)
+        else if c == 'e' then arg.map fun n => (forgedRec i n (seqOf skips i), .forged)
+        else if c == 'v' then some (other .badVersion)
+        else if c == 't' then some (other .truncated)
+        else if c == 'o' then some (other .oversize)
+        else if c == 'a' then some (other .otherAddr)
         else none
 
-def showOut : DtlcpRx.Out → String
-  | .data i => s!"d{i}"
-  | .timeout => "T"
-  | .eof => "EOF"
-  | .error => "ERR"
+/-- one script element -/
+inductive Elem where
+  | deliver (m : DtlcpRx.MD) (it : ReplaySpec.RxItem)
+  | call (stream : Bool) (n : Nat)
+
+def parseElems (path : String) (skips : List (Nat × Nat)) (L k : Nat) (it : String) : Option (List Elem) :=
+  let callOf (c : Char) (rest : String) : Option (List Elem) :=
+    rest.toNat?.bind fun n => if c == 'R' && n == 0 then none else some [Elem.call (c == 'R') n]
+  match it.toList with
+  | 'R' :: rest => callOf 'R' (String.ofList rest)
+  | 'F' :: rest => callOf 'F' (String.ofList rest)
+  | '+' :: rest => (parseItem skips L k (String.ofList rest)).map fun (m, x) => [Elem.deliver m x]
+  | _ =>
+    (parseItem skips L k it).map fun (m, x) =>
+      if path == "mix" then [Elem.deliver m x] else [Elem.deliver m x, Elem.call (path == "read") 65536]
 
 def showSt (st : DtlcpRx.State) : String := s!"{st.readEpoch}:{st.win.right}:{hex16 st.win.bitmap.toNat}"
 
-def runRx (path : DtlcpRx.Path) (st : DtlcpRx.State) : List DtlcpRx.Dgram → DtlcpRx.State × List String
-  | [] => (st, [])
-  | d :: ds =>
-    let (st1, o) := DtlcpRx.step P Q path st d
-    let (st2, rest) := runRx path st1 ds
-    (st2, s!"{showOut o}:{showSt st1}" :: rest)
+def showTail : DtlcpRx.Tail → String
+  | .none => ""
+  | .timeout => "!T"
+  | .eof => "!EOF"
+  | .error => "!ERR"
 
-def parseOut (s : String) : Option ReplaySpec.RxOut :=
-  if s == "T" then some .nothing else if s == "EOF" then some .eof else if s == "ERR" then some .error
-  else if s.startsWith "d" then (s.drop 1).toNat?.map .data else none
+def showOut (L : Nat) (plen : Nat → Nat) : DtlcpRx.MOut → String
+  | .chunk r off cnt t =>
+    (if off == 0 && cnt == plen r.payload then s!"d{r.payload}"
+     else if cnt == 0 then "x-"
+     else "x" ++ hexBytes (((payloadBytes L r.payload).drop off).take cnt)) ++ showTail t
+  | .timeout => "T"
+  | .eof => "EOF"
+  | .error => "ERR"
+  | .queued => ""
 
-/-- observed steps ↦ (out, state string) -/
-def parseSteps (s : String) : Option (List (ReplaySpec.RxOut × String)) :=
+def pendingOf (plen : Nat → Nat) (m : DtlcpRx.Mix) : Nat :=
+  match m.buf with
+  | some (r, off) => plen r.payload - off
+  | none => 0
+
+/-- the model on the script: one string per call -/
+def runMix (L : Nat) (plen : Nat → Nat) (m : DtlcpRx.Mix) : List Elem → DtlcpRx.Mix × List String
+  | [] => (m, [])
+  | .deliver d _ :: es =>
+    runMix L plen (DtlcpRx.mixStep P Q plen m (.deliver d)).1 es
+  | .call stream n :: es =>
+    let (m1, o) := DtlcpRx.mixStep P Q plen m (if stream then .read n else .readFrom n)
+    let (m2, rest) := runMix L plen m1 es
+    (m2, s!"{showOut L plen o}:{showSt m1.st}:{pendingOf plen m1}" :: rest)
+
+/-- an observed `out` ↦ (bytes handed over, how the call ended) -/
+def parseOut (L : Nat) (s : String) : Option (Option (List Nat) × ReplaySpec.Fin) :=
+  let fin (t : String) : Option ReplaySpec.Fin :=
+    if t == "T" then some .nothing else if t == "EOF" then some .eof else if t == "ERR" then some .error else none
+  let bytes (b : String) : Option (List Nat) :=
+    if b == "x-" then some []
+    else if b.startsWith "x" then parseHexBytes (b.toList.drop 1)
+    else if b.startsWith "d" then (b.drop 1).toNat?.map (payloadBytes L)
+    else none
+  match s.splitOn "!" with
+  | [a] => match fin a with
+    | some f => some (none, f)
+    | none => (bytes a).map fun b => (some b, .ok)
+  | [a, t] => do
+    let b ← bytes a
+    let f ← fin t
+    pure (some b, f)
+  | _ => none
+
+/-- observed steps ↦ (out, replay-state string) -/
+def parseSteps (L : Nat) (s : String) : Option (List ((Option (List Nat) × ReplaySpec.Fin) × String)) :=
   if s == "-" then some [] else
   (s.splitOn "|").mapM fun st =>
     match st.splitOn ":" with
-    | o :: rest => (parseOut o).map fun out => (out, ":".intercalate rest)
+    | o :: rest => (parseOut L o).map fun out => (out, ":".intercalate (rest.take 3))
     | _ => none
 
-def mkObs (prev : String) : List ReplaySpec.RxItem → List (ReplaySpec.RxOut × String) → List ReplaySpec.RxObs
-  | it :: its, (o, st) :: rest => { item := it, out := o, stateChanged := st != prev } :: mkObs st its rest
-  | _, _ => []
+/-- the history as the spec sees it: arrivals from the script, calls with what was observed -/
+def mkEvs (prev : String) : List Elem → List ((Option (List Nat) × ReplaySpec.Fin) × String) → List ReplaySpec.Ev
+  | .deliver _ it :: es, obs => .arrive it :: mkEvs prev es obs
+  | .call stream _ :: es, ((b, f), st) :: obs => .call stream b f (st != prev) :: mkEvs st es obs
+  | .call _ _ :: _, [] => []
+  | [], _ => []
 
 def judgeRx (ct : List String) (o : String) : Option Verdict := do
   let pathS ← kv ct "path"
-  let path : DtlcpRx.Path := if pathS == "read" then .read else .readFrom
   let cfg ← (kv ct "cfg").bind parseInt
   let k ← kvNat ct "sent"
   let script ← kv ct "script"
-  let items ← if script == "-" then some [] else (script.splitOn ",").mapM (parseItem k)
+  let L := (kvNat ct "plen").getD 5
+  if L < 1 || k > 200 then none
+  let skips ← parseSkips ((kv ct "skip").getD "-")
+  let plen : Nat → Nat := fun i => L + i % 7
+  let elems ← if script == "-" then some [] else
+    ((script.splitOn ",").mapM (parseElems pathS skips L k)).map List.flatten
   -- `repoch=<n>`: a hook moved the receiver's read epoch to n before the script (exercises the
   -- two epoch branches with authentic records); the property is only judged without it
   let repoch := (kvNat ct "repoch").getD 1
   let st0 := { DtlcpRx.afterHandshake P cfg with readEpoch := repoch }
-  let (st, steps) := runRx path st0 (items.map (·.1))
-  let inerr := match st.err with
+  let (m, steps) := runMix L plen (DtlcpRx.Mix.start st0) elems
+  let inerr := match m.st.err with
     | none => "none"
     | some .eof => "eof"
     | some .fatal => "fatal"
   let stepsStr := if steps.isEmpty then "-" else "|".intercalate steps
-  let model := s!"init={showSt st0}:{st0.win.size} hdrs=1.1-{k + 1} steps={stepsStr} inerr={inerr}"
+  let model := s!"init={showSt st0}:{st0.win.size} hdrs={hdrRuns skips k} steps={stepsStr} inerr={inerr}"
   -- spec on the observation
   let ot := tokens o
+  let nCalls := (elems.filter fun e => match e with | .call _ _ => true | _ => false).length
   let spec : Option (String × String) :=
     if repoch != 1 then none else
-    match kv ot "init", (kv ot "steps").bind parseSteps with
+    match kv ot "init", (kv ot "steps").bind (parseSteps L) with
     | some ini, some obs =>
-      if obs.length != items.length then some ("shape", "number of results differs from the number of deliveries")
+      if obs.length != nCalls then some ("shape", "number of results differs from the number of calls")
       else
-        -- the replay state before the first delivery, without the size
+        -- the replay state before the first call, without the size
         let prev := ":".intercalate ((ini.splitOn ":").take 3)
-        ReplaySpec.judgeRx (ReplaySpec.docWindow cfg) (pathS == "read") (mkObs prev (items.map (·.2)) obs)
+        ReplaySpec.judgeRx (ReplaySpec.docWindow cfg) (mkEvs prev elems obs)
     | _, _ => some ("shape", "unparseable observation")
-  let forgedN := (items.filter fun x => x.2 == .forged).length
-  pure { model := model, spec := spec, trivial := items.length < 2,
-         note := if repoch != 1 then "rx-epoch-hook" else if forgedN == 0 then "rx-no-forgery" else "" }
+  let forgedN := (elems.filter fun e => match e with | .deliver _ .forged => true | _ => false).length
+  let note :=
+    if repoch != 1 then "rx-epoch-hook"
+    else if pathS == "mix" then "rx-mixed-calls"
+    else if !skips.isEmpty then "rx-seq-skip"
+    else if forgedN == 0 then "rx-no-forgery" else ""
+  pure { model := model, spec := spec, trivial := nCalls < 2, note := note }
 
 def judge (c o : String) : Option Verdict := do
   let ct := tokens c
